@@ -119,3 +119,59 @@ func verifHarness_C18_stop_after_registration_failure() {
 	verifAssertD(verifJoin() == 0, "no-engine-goroutine-left", "registration-failure")
 	verifAssert(false, "witness")
 }
+
+// Stop while an asynchronous dial is still connecting (with or without a dial
+// timeout armed), or has just completed: Stop returns, the socket is released,
+// no timer stays armed, and the dial callback has run exactly once.
+func verifHarness_C18_stop_with_pending_dial() {
+	verifBound("preemptions", 1)
+	vkReset()
+	MaxOpenFiles = 32
+	mode := verifChoose("mode", 3)
+	g := NewEngine(verifEngineConf(mode))
+	closes := 0
+	g.OnClose(func(c *Conn, err error) { closes++ })
+	verifSched(true, 1)
+	if err := g.Start(); err != nil {
+		verifFail("engine-start-failed", "")
+		return
+	}
+	calls, okCalls := 0, 0
+	timeout := time.Duration(0)
+	if verifChoose("dial_timeout", 2) == 1 {
+		timeout = time.Second
+	}
+	err := g.DialAsyncTimeout("unix", "/verif.sock", timeout, func(c *Conn, err error) {
+		calls++
+		if err == nil {
+			okCalls++
+		}
+	})
+	if err != nil {
+		verifFail("dial-starts", "")
+		return
+	}
+	var f *vkFd
+	for _, x := range vk.fds {
+		if x != nil && x.kind == vkSockStream {
+			f = x
+		}
+	}
+	if verifChoose("connect_completes_before_stop", 2) == 1 {
+		f.connectDone(0)
+	}
+	name := verifModeName(mode)
+	verifStepBudget(400000)
+	g.Stop()
+	verifStepBudgetEnd()
+	verifReach("stop-returned")
+	left := verifJoin()
+	verifAssertD(left == 0, "no-engine-goroutine-left", name+"/dial/"+verifBlockedOn())
+	verifAssertD(!f.open, "every-descriptor-released", name+"/dial")
+	for i := 0; i < verifTimerCount(); i++ {
+		verifAssertD(!verifTimerArmed(i), "no-timer-left-armed", name+"/dial")
+	}
+	verifAssertD(calls == 1, "dial-outcome-reported-exactly-once", name+"/stop")
+	verifAssertD(okCalls == 0 || closes == 1, "close-notification-delivered-for-every-connection-before-stop-returns", name+"/dialed")
+	verifAssert(false, "witness")
+}
